@@ -135,6 +135,11 @@ func Run(prefix []int, maxSteps int, trace bool, body func()) (res Result) {
 		if nopt == 0 {
 			deadlock = true
 			s.failure = "deadlock: no thread enabled and no timer pending; blocked: " + strings.Join(s.blockedList(), "; ")
+			if OnDeadlock != nil {
+				if extra := OnDeadlock(); extra != "" {
+					s.failure = extra + " -- " + s.failure
+				}
+			}
 			break
 		}
 		c := 0
@@ -150,6 +155,12 @@ func Run(prefix []int, maxSteps int, trace bool, body func()) (res Result) {
 		}
 		if c == len(en) {
 			if tm.when.After(s.now) {
+				if OnAdvance != nil {
+					OnAdvance(s.now, tm.when, len(en) == 0)
+					if s.failure != "" {
+						break
+					}
+				}
 				s.now = tm.when
 			}
 			tm.dead = true
@@ -374,6 +385,71 @@ func Logf(format string, a ...interface{}) {
 		s.Log = append(s.Log, fmt.Sprintf(format, a...))
 	}
 }
+
+// Handle identifies a spawned harness thread.
+type Handle struct{ t *thread }
+
+// Done reports whether the thread has finished.
+func (h Handle) Done() bool { return h.t == nil || h.t.done }
+
+// BlockedOn returns what the thread is blocked on ("" if runnable or finished).
+func (h Handle) BlockedOn() string {
+	if h.t == nil || h.t.done || h.t.blocked == nil {
+		return ""
+	}
+	return h.t.blockOn
+}
+
+// Name of the thread.
+func (h Handle) Name() string { return h.t.name }
+
+// Spawn starts a harness thread and returns its handle (a scheduling point, like Go).
+func Spawn(name string, fn func()) Handle {
+	s := active
+	if s == nil {
+		panic("sched.Spawn outside an execution")
+	}
+	if s.killed {
+		panic(killSignal{})
+	}
+	t := s.spawn(name, fn)
+	s.tracef("go %s", t.name)
+	s.point()
+	return Handle{t}
+}
+
+// Self returns the handle of the running thread.
+func Self() Handle { return Handle{active.cur} }
+
+// WaitAll blocks the caller until all given threads have finished.
+func WaitAll(hs ...Handle) {
+	Block("join", func() bool {
+		for _, h := range hs {
+			if !h.Done() {
+				return false
+			}
+		}
+		return true
+	})
+}
+
+// OnAdvance, if set, is called on the controller just before virtual time moves from old to new
+// (new > old); idle reports that no program thread was enabled (time passes because everybody waits).  It may inspect shim/harness state and call FailNow; it must not reach a scheduling point.
+var OnAdvance func(old, new time.Time, idle bool)
+
+// OnDeadlock, if set, is called on the controller when no thread is enabled and no timer is pending;
+// its result is prepended to the failure message (harness classification).
+var OnDeadlock func() string
+
+// FailFromController records a failure from a controller-side hook (OnAdvance).
+func FailFromController(format string, a ...interface{}) {
+	if s := active; s != nil && s.failure == "" {
+		s.failure = fmt.Sprintf(format, a...)
+	}
+}
+
+// Elapsed is the virtual time since the start of the execution.
+func Elapsed() time.Duration { return Now().Sub(epoch0) }
 
 // Killed reports whether the execution is being torn down.
 func Killed() bool { return active != nil && active.killed }
